@@ -313,7 +313,7 @@ class C15(Check):
     budget = (70, 500)
 
     def cases(self, tier, seed):
-        n = 1200 if tier == "quick" else 60000
+        n = 1200 if tier == "quick" else 24000
         for i in range(n):
             yield dict(kind="config", seed=seed * 100019 + i)
         for name, _ in INVALID:
